@@ -201,6 +201,23 @@ pub fn layered_family(rng: &mut Rng, max_total: usize) -> Abs {
     union_of(&parts, rng)
 }
 
+/// Many small components with several preferred extensions each (two-cycles, three-cycles with a
+/// chord), one component whose ideal extension is larger than its grounded one, and one or two
+/// unattacked singletons: per-component procedures stay cheap, anything that works on the *merged*
+/// remainder enumerates the product of the components' extensions.
+pub fn many_components(rng: &mut Rng) -> Abs {
+    let mut parts: Vec<Abs> = Vec::new();
+    for _ in 0..rng.range(1, 2) {
+        parts.push(singleton());
+    }
+    // a <-> b, b -> b: grounded empty, ideal {a}
+    parts.push(Abs::new(2, vec![(0, 1), (1, 0), (1, 1)]));
+    for _ in 0..rng.range(5, 9) {
+        parts.push(if rng.pct(80) { two_cycle() } else { Abs::new(3, vec![(0, 1), (1, 0), (0, 2), (1, 2)]) });
+    }
+    union_of(&parts, rng)
+}
+
 /// Adds attacks until the graph is weakly connected.
 pub fn connect(g: &mut Abs, rng: &mut Rng) {
     loop {
